@@ -193,12 +193,16 @@ def loadElf (fx : Fix) (c : Cfg) (img : ElfImage) : Option Task :=
 
 /-! ## what a kernel accepts -/
 
-/-- one `PT_LOAD`: file offset and address agree modulo the page (`p_offset & (ps-1) = p_vaddr & (ps-1)`,
-    for a power of two `p_offset ≡ p_vaddr (mod ps)`), `filesz ≤ memsz`, not empty, file part inside
-    the file. -/
+/-- one `PT_LOAD` as the loader accepts it: the in-page offset of the address does not exceed the file
+    offset (`p_vaddr & (ps-1) ≤ p_offset`, otherwise `seek` gets a negative position) — in particular every
+    segment whose offset and address agree modulo the page (`SegCongruent`, what a linker produces), but also
+    unaligned segments (`p_align` 0/1) —, `filesz ≤ memsz`, not empty, file part inside the file. -/
 def SegOK (file : Bytes) (ps : Nat) (s : Phdr) : Prop :=
-  pageOffset ps s.offset = pageOffset ps s.vaddr ∧ s.filesz ≤ s.memsz ∧ 0 < s.memsz ∧
+  pageOffset ps s.vaddr ≤ s.offset ∧ s.filesz ≤ s.memsz ∧ 0 < s.memsz ∧
   s.offset + s.filesz ≤ file.length
+
+/-- `p_offset & (ps-1) = p_vaddr & (ps-1)`; for a power of two `p_offset ≡ p_vaddr (mod ps)`. -/
+def SegCongruent (ps : Nat) (s : Phdr) : Prop := pageOffset ps s.offset = pageOffset ps s.vaddr
 
 /-- an earlier segment `s` and a later one `t`: ordered and disjoint in memory, and the page-rounded
     mapping of `t` either starts behind `s`, or shows the same file bytes as `s` does (same
@@ -222,6 +226,8 @@ def LoadableOK (c : Cfg) (img : ElfImage) : Prop :=
 
 instance (file : Bytes) (ps : Nat) (s : Phdr) : Decidable (SegOK file ps s) := by
   unfold SegOK; infer_instance
+instance (ps : Nat) (s : Phdr) : Decidable (SegCongruent ps s) := by
+  unfold SegCongruent; infer_instance
 instance (ps : Nat) (s t : Phdr) : Decidable (NoClobber ps s t) := by
   unfold NoClobber; infer_instance
 instance (c : Cfg) (ls : List Phdr) : Decidable (StackApart c ls) := by
